@@ -46,6 +46,8 @@ var c02Catalogue = []string{
 	"no-enc-key",             // valid signature, but the peer cannot use the encryption private key
 	"no-keys-skx-omitted",    // holds no private key at all and omits ServerKeyExchange
 	"resume-unverified",      // a session created under InsecureSkipVerify is resumed under a verifying configuration sharing the cache
+	"resume-unverified-mixed", // same, but only the ENCRYPTION certificate of the recorded pair is untrusted
+	"wrong-name-ip",          // the client is configured with an IP literal as server name; the certificates do not list it
 }
 
 func (c02) ID() string    { return "C02" }
@@ -100,7 +102,7 @@ func c02MustFail(imp string, skip bool) bool {
 	switch imp {
 	case "honest":
 		return false
-	case "untrusted-ca", "expired", "not-yet-valid", "wrong-name", "mixed-ca":
+	case "untrusted-ca", "expired", "not-yet-valid", "wrong-name", "mixed-ca", "wrong-name-ip", "resume-unverified-mixed":
 		return !skip // certificate checks only: acceptable once verification is disabled (keys are held)
 	case "resume-unverified":
 		return !skip
@@ -191,6 +193,12 @@ func (c02) Run(c *Case, src *vs.Src) *Result {
 		dropSKX()
 	case "resume-unverified":
 		use("server_untrusted")
+	case "resume-unverified-mixed":
+		o.Certs = ders("server_sig", "server_untrusted_enc")
+		o.EncKey = sm2Key("server_untrusted_enc")
+		ownEnc = "server_untrusted_enc"
+	case "wrong-name-ip":
+		cc.ServerName = "192.0.2.10"
 	}
 	type connOut struct {
 		hsErr    error
@@ -253,7 +261,7 @@ func (c02) Run(c *Case, src *vs.Src) *Result {
 		return co, w, h
 	}
 	var co *connOut
-	if p.Impostor == "resume-unverified" {
+	if p.Impostor == "resume-unverified" || p.Impostor == "resume-unverified-mixed" {
 		// connection 1: a client configuration that does not verify creates the session
 		c1 := *cc
 		c1.SkipVerify, c1.Cache = true, "shared"
